@@ -21,6 +21,37 @@ def parseOp (s : String) : Option Op :=
   | ["crash"] => some .crash
   | _ => none
 
+/-- driver-level ops: besides the model's ops, records that sit prefetched in the client's event queue (`queue p o`) and
+one iteration of the consumer's event loop on that queue (`handle`).  They are expanded into model ops while threading
+the model state: `Unassign` (any refresh that changes the assignment) empties the queue, as the code drains it; a handled
+record is an arbitrary delivered record (`msg`); everything else about the queue is unobservable (`kerr false` = no-op). -/
+inductive ROp where
+  | op (o : Op)
+  | queue (p o : Int)
+  | handle
+
+def parseROp (s : String) : Option ROp :=
+  match words s with
+  | ["queue", p, o] => do pure (.queue (← p.toInt?) (← o.toInt?))
+  | ["handle"] => some .handle
+  | _ => (parseOp s).map .op
+
+def drainedBy (o : Out) : Bool := o.calls.any (fun c => match c with | .unassign => true | _ => false)
+
+def expand (s : St) (q : List (Int × Int)) : List ROp → List Op
+  | [] => []
+  | .queue p o :: r => .kerr false :: expand s (q ++ [(p, o)]) r
+  | .handle :: r =>
+    match q with
+    | [] => .kerr false :: expand s [] r
+    | (p, o) :: q' =>
+      let so := step s (.msg p o)
+      .msg p o :: expand so.1 (if drainedBy so.2 then [] else q') r
+  | .op o :: r =>
+    let so := step s o
+    let isCrash := match o with | .crash => true | _ => false
+    o :: expand so.1 (if drainedBy so.2 || isCrash then [] else q) r
+
 def sortPairs (l : List (Int × Int)) : List (Int × Int) := sortByKey l
 
 def callStr : List Call → String
@@ -79,25 +110,33 @@ def opTags (s : St) (op : Op) (o : Out) : List String :=
 def check (input impl : String) : Verdict :=
   match fields input ";" with
   | hd :: rest =>
-    match words hd, rest.mapM parseOp with
-    | ["cfg", mr, rate], some ops =>
+    match words hd, rest.mapM parseROp with
+    | ["cfg", mr, rate], some rops =>
       match mr.toInt?, rate.toInt? with
       | some mr, some rate =>
         let s0 : St := { maxRecords := mr, updateEvery := 5 * rate }
+        let ops := expand s0 [] rops
         let (sf, outs) := run s0 ops
         let model := joinWith " ; " (outs.map (fun o => renderOp (obsOf o))) ++ " # " ++ renderFinal sf
         let scope := ops.all opInScope && decide (1 ≤ rate) && decide (1 ≤ mr)
         let sp := if !scope then none else
           match impl.splitOn "#" with
           | [a, _] => match (fields a ";").mapM parseObsOp with
-            | some obs => specRun {} ops obs
+            | some obs =>
+              -- a `handle` on a queue the model has emptied is judged as a no-op; name the clause after what happened
+              match specRun {} ops obs with
+              | some "other-error-must-be-ignored" =>
+                if rops.any (fun o => match o with | .handle => true | _ => false) then some "record-of-a-replaced-assignment-still-handled"
+                else some "other-error-must-be-ignored"
+              | r => r
             | none => some "unparsable-observation"
           | _ => some "unparsable-observation"
         -- tags: replay the model stepwise
         let rec tg (s : St) : List Op → List String
           | [] => []
           | op :: r => let (s', o) := step s op; opTags s op o ++ tg s' r
-        { model := model, spec := sp, inScope := scope, tags := (tg s0 ops).eraseDups }
+        let qtags := if rops.any (fun o => match o with | .queue .. => true | _ => false) then ["prefetched-queue"] else []
+        { model := model, spec := sp, inScope := scope, tags := ((tg s0 ops) ++ qtags).eraseDups }
       | _, _ => { model := "bad-input" }
     | _, _ => { model := "bad-input" }
   | _ => { model := "bad-input" }
